@@ -272,6 +272,12 @@ def run(ctx, params):
             if rng.random() < 0.4:
                 treegen.decorate_like_import(rng, t)
             nodes = snapshot.walk(t)
+            for x in nodes:
+                # text elements whose content carries its markup inline, as some editors store it
+                if x.name in ("abstract", "description", "intellectualRights", "methodStep", "purpose", "gettingStarted") and rng.random() < 0.5:
+                    x.content = rng.choice(["<para>inline paragraph</para>", "<markdown>some *text*</markdown>", "<section><para>x</para></section>",
+                                            "<para>one</para><para>two</para>", "<para>unclosed"])
+                    ctx.count("text_elements_with_inline_markup")
             for n in rng.sample(nodes, min(4, len(nodes))) + [x for x in nodes if x.name == "title"][:2]:
                 if n.content is not None:
                     # text that an in-place escaper / normaliser / trimmer would rewrite
